@@ -40,6 +40,12 @@ def ctl_genreuse(xs: List[int], ys: List[int]) -> int:
     return n
 
 
+def ctl_recurse(graph: Any, n: Identifier, acc: List[Identifier]) -> None:
+    for p in graph.predecessors(n):
+        acc.append(p)
+        ctl_recurse(graph, p, acc)
+
+
 _ctl_state: List[int] = []
 
 
